@@ -67,6 +67,17 @@ def _r8(ctx):
                 if not exact and sz[0] == "bin" and sz[1].startswith("Add"):
                     x, y = norm(sz[2]), norm(sz[3])
                     exact = (x == ("param", 2) and y[0] == "call" and str(y[1]).endswith("::len")) or (y == ("param", 2) and x[0] == "call" and str(x[1]).endswith("::len"))
+                # min(len(value), l): the part of the value that fits;  l - min(len(value), l): the padding that completes the field
+                def is_fit(z):
+                    z = norm(z)
+                    if z[0] == "call" and str(z[1]).rsplit("::", 1)[-1] == "min" and len(z[2]) == 2:
+                        p_, q_ = norm(z[2][0]), norm(z[2][1])
+                        return any(u == ("param", 2) and v[0] == "call" and str(v[1]).endswith("::len") and norm(v[2][0]) == ("param", 1) for u, v in ((p_, q_), (q_, p_)))
+                    return False
+                if not exact and is_fit(sz):
+                    exact = True
+                if not exact and sz[0] == "bin" and sz[1].startswith("Sub") and norm(sz[2]) == ("param", 2) and is_fit(sz[3]):
+                    exact = True
                 ctx.check(exact, "R8", "fixed-field:size-limit-is-the-width:%s" % last, ctx.where(b, tm["sp"]),
                           "a fixed BOOTP field of width l carries up to l octets of the value: the count given to %s must be l itself (is %s); "
                           "with l - 1 a value that fills the field loses its last octet" % (last, show(sz)[:80]))
@@ -374,7 +385,7 @@ def _r4(ctx):
         pr = at.get(tables.IPV4_OFFSETS["protocol"])
         ctx.check(bool(pr) and pr[0] == 1 and pr[1][0] == "param", "R4", "ipv4:protocol@9", ctx.where(b), "")
         ck = at.get(tables.IPV4_OFFSETS["checksum"])
-        ctx.check(bool(ck) and ck[0] == 2 and ck[1] == ("const", 0), "R4", "ipv4:checksum-placeholder@10", ctx.where(b), "")
+        ctx.check(bool(ck) and ck[0] == 2 and is_const(ck[1], 0), "R4", "ipv4:checksum-placeholder@10", ctx.where(b), "")
         s_ = at.get(tables.IPV4_OFFSETS["src"])
         d_ = at.get(tables.IPV4_OFFSETS["dst"])
         okk = bool(s_) and bool(d_) and s_[0] == 4 and d_[0] == 4
@@ -387,8 +398,8 @@ def _r4(ctx):
         good = set(pt) == {10, 11}
         if good:
             hi, lo = pt[10][0], pt[11][0]
-            good = any(y[0] == "bin" and y[1].startswith("Shr") and norm(y[3]) == ("const", 8) for y in subterms(hi)) and \
-                any(y[0] == "bin" and y[1] == "BitAnd" and norm(y[3]) == ("const", 255) for y in subterms(lo))
+            good = any(y[0] == "bin" and y[1].startswith("Shr") and is_const(norm(y[3]), 8) for y in subterms(hi)) and \
+                any(y[0] == "bin" and y[1] == "BitAnd" and is_const(norm(y[3]), 255) for y in subterms(lo))
             # the sum covers the header buffer
             good = good and any(y[0] == "call" and str(y[1]).endswith("finish_netsum") for y in subterms(hi))
         ctx.check(good, "R4", "ipv4:checksum-patched@%s" % sorted(pt), ctx.where(b), "the header checksum (hi, lo) must be stored at offsets 10 and 11")
@@ -396,7 +407,7 @@ def _r4(ctx):
         for bb, tm in b.calls():
             if callee_name(tm) == fns.get("new_ethernet"):
                 a = norm(T.call_args(bb)[2])
-                ctx.check(a == ("const", tables.ETHERTYPE_IPV4), "R4", "ipv4:ethertype=0x0800", ctx.where(b, tm["sp"]), show(a))
+                ctx.check(is_const(a, tables.ETHERTYPE_IPV4), "R4", "ipv4:ethertype=0x0800", ctx.where(b, tm["sp"]), show(a))
     # ---- udp
     if "new_udp4" in fns:
         b = P.bodies[fns["new_udp4"]]
@@ -415,13 +426,13 @@ def _r4(ctx):
             from ..affine import affine
             a = affine(ln, lambda x: x[0] == "call" and str(x[1]).endswith("Tail::<'a>::len"))
             ctx.check(a is not None and list(a[0].values()) == [1] and a[1] == tables.UDP_HEADER_LEN, "R4", "udp:length=8+tail@4", ctx.where(b), show(ln)[:80])
-            ctx.check(ck == ("const", 0), "R4", "udp:checksum-placeholder@6", ctx.where(b), "")
+            ctx.check(is_const(ck, 0), "R4", "udp:checksum-placeholder@6", ctx.where(b), "")
         pt = _patches(P, b, fl[0]) if fl else {}
         good = set(pt) == {6, 7}
         if good:
             hi, lo = pt[6][0], pt[7][0]
-            good = any(y[0] == "bin" and y[1].startswith("Shr") and norm(y[3]) == ("const", 8) for y in subterms(hi)) and \
-                any(y[0] == "bin" and y[1] == "BitAnd" and norm(y[3]) == ("const", 255) for y in subterms(lo))
+            good = any(y[0] == "bin" and y[1].startswith("Shr") and is_const(norm(y[3]), 8) for y in subterms(hi)) and \
+                any(y[0] == "bin" and y[1] == "BitAnd" and is_const(norm(y[3]), 255) for y in subterms(lo))
         ctx.check(good, "R4", "udp:checksum-patched@%s" % sorted(pt), ctx.where(b), "the UDP checksum (hi, lo) must be stored at offsets 6 and 7")
         # pseudo header
         if len(fl) >= 2:
@@ -429,14 +440,14 @@ def _r4(ctx):
             widths = [w for _, w, _, _ in ps]
             ctx.check(widths == [4, 4, 1, 1, 2], "R4", "udp:pseudo-header=src4+dst4+zero1+proto1+len2", ctx.where(b), "found %s" % widths)
             if len(ps) == 5:
-                ctx.check(ps[2][2] == ("const", 0) and ps[3][2] == ("const", tables.IPPROTO_UDP), "R4", "udp:pseudo-header:zero,protocol=17", ctx.where(b),
+                ctx.check(is_const(ps[2][2], 0) and is_const(ps[3][2], tables.IPPROTO_UDP), "R4", "udp:pseudo-header:zero,protocol=17", ctx.where(b),
                           "%s %s" % (show(ps[2][2]), show(ps[3][2])))
                 ln = ps[4][2]
                 ctx.check(any(y[0] == "call" and str(y[1]).endswith("Fragment::<'a>::len") for y in subterms(ln)), "R4", "udp:pseudo-header:length=udp-length", ctx.where(b), show(ln)[:60])
         for bb, tm in b.calls():
             if callee_name(tm) == fns.get("new_ipv4"):
                 a = norm(T.call_args(bb)[4])
-                ctx.check(a == ("const", tables.IPPROTO_UDP), "R4", "udp:ip-protocol=17", ctx.where(b, tm["sp"]), show(a))
+                ctx.check(is_const(a, tables.IPPROTO_UDP), "R4", "udp:ip-protocol=17", ctx.where(b, tm["sp"]), show(a))
 
 
 def _r5(ctx):
@@ -492,7 +503,7 @@ def _r7(ctx):
                 if rv and rv["k"] == "bin" and rv["op"] == "BitOr":
                     t = norm(T.rvalue(rv, bb, idx))
                     a, c = norm(t[2]), norm(t[3])
-                    if a[0] == "bin" and a[1].startswith("Shl") and norm(a[3]) == ("const", 8) and not any(y[0] == "bin" and y[1].startswith("Shl") for y in subterms(c)):
+                    if a[0] == "bin" and a[1].startswith("Shl") and is_const(norm(a[3]), 8) and not any(y[0] == "bin" and y[1].startswith("Shl") for y in subterms(c)):
                         word = True
             shl8 = [1 for bb, idx, s in b.stmts() if s.get("rv") and s["rv"]["k"] == "bin" and s["rv"]["op"].startswith("Shl") and s["rv"]["b"].get("k", {}).get("int") == "8"]
             odd = len(shl8) >= 2
